@@ -1082,4 +1082,7 @@ theorem mm_run (gt : Bool) (nm : String) (ifs : Nat) (hi : ifs ≠ accSlot) (k :
     obtain ⟨c1, p1, h1, h2, h3, h4, h5⟩ := mm_step gt nm ifs hi k hk s slot hs env ac ap hc hn hb
     obtain ⟨c', p', h6, h7, h8, h9⟩ := ih c1 p1 h3 h4 h5
     exact ⟨c', p', by simp only [runAggC, h1, h6], by simp only [runAggPy, h2, h7], h8, h9⟩
+theorem truthy_convert_bool (c : CV N) : (convert .bool c).truthy = c.truthy := by
+  cases c <;> rfl
+
 end FaxVerif.C13
